@@ -24,13 +24,15 @@ OTHERS = {
     6: "try:\n    from district42 import schema as _s\nexcept ImportError:\n    _s = None",
     7: "\"\"\"from district42 import schema\"\"\"",
     8: "# from district42 import schema",
+    9: "\u0438\u043c\u044f = \"Ren\u00e9 \u2014 caf\u00e9\"",
 }
+U_ALIAS = "\u0441\u0445\u0435\u043c\u0430"
 
 
 def render_stmt(st):
     if st["k"] == "oth":
         return OTHERS[st["id"]]
-    names = [n["n"] + (" as " + n["as"] if n["as"] else "") for n in st["names"]]
+    names = [n["n"] + (" as " + (U_ALIAS if n["as"] == "u_alias" else n["as"]) if n["as"] else "") for n in st["names"]]
     head = "from %s%s import " % ("." * st["level"], st["mod"] if not (st["level"] and st["mod"] == "") else "")
     form = st["form"]
     if form == "paren":
@@ -72,7 +74,7 @@ def abstract(source, mapping):
                 to = []
                 if node.level == 0 and mod in mapping and a.name in mapping[mod]:
                     to = [list(mapping[mod][a.name])]
-                names.append({"n": a.name, "as": a.asname or "", "to": to})
+                names.append({"n": a.name, "as": "u_alias" if a.asname == U_ALIAS else (a.asname or ""), "to": to})
             out.append({"k": "imp", "level": node.level, "mod": mod, "names": names})
         else:
             out.append({"k": "oth", "id": other_id(node)})
